@@ -1,0 +1,11 @@
+//go:build verif
+
+package replicator
+
+import (
+	"github.com/nspcc-dev/neofs-sdk-go/object"
+)
+
+// VerifObject returns the object carried by the task itself (nil when the
+// object is to be read from the local storage).
+func (t Task) VerifObject() *object.Object { return t.obj }
